@@ -73,8 +73,9 @@ def run(ck, progs):
     ck.config = None
 
 TECHNIQUE = "MIR call-graph reachability of panic/unsafe sinks + dominance-checked guard audit"
-LEVEL_TEXT = ("Decides clauses C08-a/b/c: from every decoder entry point and every serde adapter method of ohkami's urlencoded/cookie/multipart/utf8 "
-              "decoders, the query and cookie iterators, the Set-Cookie parser and percent-decoding, no panic sink (unwrap/expect/assert!/bounds/overflow/"
-              "partial std call) and no unsafe operation is reachable over resolved call edges unless dominated by the guard establishing its precondition "
-              "(sound for these clauses over all paths, modulo the stated assumptions). Decides these clauses, not the behaviour: termination and "
-              "UTF-8/pointer-range facts beyond guarded sites are not decided.")
+LEVEL_TEXT = ("Decides clauses C08-a/b/c: from every decoder entry point and every serde adapter method of ohkami's urlencoded/cookie/multipart/utf8 decoders, the "
+              'query and cookie iterators, the Set-Cookie parser and percent-decoding, no panic sink (unwrap/expect/assert!/bounds/overflow/partial std call) and no '
+              'unsafe operation is reachable over resolved call edges unless dominated by the guard establishing its precondition -- where that guard is a predicate '
+              'closure (`is_some_and(|part| ..)`), the closure may answer true only under the test the unsafe operation needs -- (sound for these clauses over all '
+              'paths, modulo the stated assumptions). Decides these clauses, not the behaviour: termination and UTF-8/pointer-range facts beyond guarded sites are '
+              'not decided.')
